@@ -405,6 +405,9 @@ type refInfo struct {
 	// a receiver parameter (a common case), we don't need to desugar (&v or *ptr)
 	// the selection: if param.Method is a valid selection, then so is param.fieldOrMethod.
 	IsSelectionOperand bool
+	// (verif) InFuncLit: the reference lies inside a function literal of the callee: it is evaluated when
+	// the literal runs, not when the call is made.
+	InFuncLit bool
 }
 
 // analyzeParams computes information about parameters of function fn,
@@ -493,6 +496,11 @@ func analyzeParams(logf func(string, ...any), fset *token.FileSet, info *types.I
 						IfaceAssignment:    ifaceAssign,
 						AffectsInference:   affectsInference,
 						IsSelectionOperand: isSelectionOperand(stack),
+					}
+					for _, anc := range stack {
+						if _, isLit := anc.(*ast.FuncLit); isLit {
+							ref.InFuncLit = true
+						}
 					}
 					pinfo.Refs = append(pinfo.Refs, ref)
 					pinfo.Shadow = pinfo.Shadow.add(info, fieldObjs, pinfo.Name, stack)
